@@ -51,9 +51,16 @@ class Walk:
         registered = {}  # wid -> 'ok' | 'stale' | 'dropped' | 'tasked'
         stored = 0
         prev = None
+        left = {}       # node -> the event at which it last left the queue
         for i, (ev, ob) in enumerate(zip(self.r['events'], self.r['obs'])):
             before = prev
-            ctx = dict(i=i, ev=ev, before=before, after=ob,
+            if before is not None:
+                for x in before['que']:
+                    if x not in ob['que']:
+                        left[x] = ('rep', ev[2]) if ev[0] == 'rep' else (ev[0],)
+            for x in ob['que']:
+                left.pop(x, None)
+            ctx = dict(i=i, ev=ev, before=before, after=ob, left=dict(left),
                        inflight_before=list(inflight), queued_before=list(queued),
                        marked=marked, stale=stale, registered=dict(registered), stored=stored)
             k = ev[0]
@@ -163,6 +170,17 @@ def c03(r):
                 known = u in c['marked']
                 out.append(('duplicate-flight', {'cause': 'purge-cleared-doing' if known else 'unknown'},
                             'unit (%s,%s) is in flight %d times' % (W.g['tags'][u[0]], W.g['tnames'][u[1]], k), c['i']))
+        # "otherwise stays queued": a released unit (in `doing`) is in flight,
+        # queued for a worker, or still held by the farm for the next dispatch
+        exa_now = set(ex)
+        held_now = set(c['after']['jobs'])
+        for x in range(W.n):
+            for t in c['after']['nodes'][x][1]:
+                if (x, t) not in exa_now and x not in held_now:
+                    out.append(('released-unit-lost', {'cause': 'unknown'},
+                                'unit (%s,%s) was released (it counts as executing) but no worker has it, it is '
+                                'not queued and the farm does not hold its job'
+                                % (W.g['tags'][x], W.g['tnames'][t]), c['i']))
         if c['lost']:
             out.append(('message-lost', {'cause': 'unknown'},
                         'queued task messages vanished without being handed to a worker: %s' % c['lost'], c['i']))
@@ -178,7 +196,11 @@ def c03(r):
                 unit_marked = any((x, u) in c['marked'] for u in range(len(W.g['tnames'])))
                 dup_before = collections.Counter(executing(c, 'before'))[(x, t)] > 1
                 if dropped or len(chron) != 1:
-                    out.append(('reply-dropped', {'cause': 'purge-cleared-doing' if (unit_marked or dup_before) else 'unknown'},
+                    # the recorded finding: the job left the queue when ANOTHER
+                    # reply of the same job completed it (not at a purge, not
+                    # at a request or a dispatch)
+                    by_own = c['left'].get(x) in (None, ('rep', x))
+                    out.append(('reply-dropped', {'cause': 'purge-cleared-doing' if ((unit_marked or dup_before) and by_own) else 'unknown'},
                                 'reply for in-flight unit (%s,%s) was not applied exactly once (chronicle entries %d, dropped %d)'
                                 % (W.g['tags'][x], W.g['tnames'][t], len(chron), len(dropped)), c['i']))
                 elif chron[0][1:] != [x, t, rid, oc]:
@@ -288,6 +310,19 @@ def c02(r):
             continue
         _, w, x, t, rid, oc, vals = c['ev']
         if [o for o in c['after']['outs'] if o[0] == 6]:
+            # the report found no job and was dropped.  The recorded C03 finding
+            # (purge cleared `doing` of an executing unit, the job was retired
+            # by another reply of its own) is not repeated here; a report with
+            # new values lost in any other way is
+            marked = any((x, u) in c['marked'] for u in range(len(W.g['tnames'])))
+            dup = collections.Counter(executing(c, 'before'))[(x, t)] > 1
+            by_own = c['left'].get(x) in (None, ('rep', x))
+            if (w, x, t, rid) in c['inflight_before'] and any(isn for _vt, _vn, isn in vals) \
+                    and not ((marked or dup) and by_own):
+                out.append(('report-lost', {'cause': 'unknown'},
+                            'the success report of in-flight unit (%s,%s) with new values was dropped (its job left '
+                            'the queue at %s): its consumers are never re-run'
+                            % (W.g['tags'][x], W.g['tnames'][t], c['left'].get(x)), c['i']))
             continue
         bf, af = c['before'], c['after']
         new = {vn for vt, vn, isn in vals if isn}
